@@ -117,6 +117,76 @@ pub fn run(ctx: &Ctx, rep: &mut Report) {
             }
         }
     }
+    // histories with mixed decode flags: an abandoned opener announcing type X (decoding on or
+    // off), then a two-fragment group carrying type Y whose opener is parsed with the other
+    // flag and whose final fragment is decoded: the variant follows Y's six bits alone
+    for (xi, &xch) in crate::armor::ALPHABET.iter().enumerate() {
+        if !ctx.mine(item) {
+            item += 1;
+            continue;
+        }
+        item += 1;
+        for (yi, &ych) in crate::armor::ALPHABET.iter().enumerate() {
+            let y = yi as u8;
+            // payload of type Y: a valid message when Y is supported, random otherwise
+            let brs: Vec<&gen::Branch> = gen::BRANCHES.iter().filter(|b| b.t == y).collect();
+            let (chars, fill) = if brs.is_empty() {
+                let mut c: Vec<u8> = (0..28).map(|_| *r.pick(crate::armor::ALPHABET)).collect();
+                c[0] = ych;
+                (c, 0u8)
+            } else {
+                gen::gen_message(*r.pick(&brs), &mut r).to_armor()
+            };
+            if chars.len() < 2 {
+                continue;
+            }
+            let cut = r.usize(1, chars.len() - 1);
+            let id = Some(((xi + yi) % 10) as u8);
+            let flags = [(true, false), (false, true), (true, true), (false, false)][(xi + yi) % 4];
+            let mut xpl = vec![xch];
+            xpl.extend((0..9).map(|_| *r.pick(crate::armor::ALPHABET)));
+            let hist: Vec<(Vec<u8>, bool)> = vec![
+                (nmea_ref::mk(2, 1, id, &xpl, 0), flags.0),
+                (nmea_ref::mk(2, 1, id, &chars[..cut], 0), flags.1),
+                (nmea_ref::mk(2, 2, id, &chars[cut..], fill), true),
+            ];
+            let mut p = Parser::new();
+            let mut last = None;
+            for (l, d) in &hist {
+                last = Some(p.parse(l, *d));
+            }
+            rep.eval();
+            let want = variant_of(y);
+            rep.class(format!("mixed-decode-history|t{}|flags{}{}", y, flags.0 as u8, flags.1 as u8));
+            match last {
+                Some(Call::Panic(pi)) => rep.violation(PID, format!("panic@{}", pi.loc), pi.msg.clone(), || mon::replay_history(&hist, "mixed-decode-history")),
+                Some(Call::Done(Outcome::Complete(s))) => {
+                    let v = s.message.as_ref().map(|m| m.variant);
+                    if v != want || want.is_none() {
+                        rep.violation(
+                            PID,
+                            format!("history-type-{}-wrong-variant", y),
+                            format!("group whose payload starts with {:?} (type {}) decoded as {:?}, expected {:?}, after an abandoned opener starting with {:?}", ych as char, y, v, want, xch as char),
+                            || mon::replay_history(&hist, "mixed-decode-history"),
+                        );
+                    }
+                }
+                Some(Call::Done(Outcome::Err(_))) => {
+                    if !brs.is_empty() && !(mon::is_noalloc() && chars.len() > 384) {
+                        // a valid message of a supported type must decode; in the no-allocator
+                        // build only when its text / data fits (the judge knows the capacities)
+                        let view = crate::armor::unarmored_bits(&chars, fill as usize).unwrap();
+                        if let crate::val::RefOut::Msg(m) = crate::decode_ref::decode_ref(&view) {
+                            if m.must_ok && !(mon::is_noalloc() && m.caps.over()) {
+                                rep.violation(PID, format!("history-type-{}-rejected", y), format!("valid type {} group rejected after an abandoned opener starting with {:?}", y, xch as char), || mon::replay_history(&hist, "mixed-decode-history"));
+                            }
+                        }
+                    }
+                }
+                _ => {}
+            }
+        }
+    }
     // a payload of 11 000 characters under every type value (std / alloc only: the
     // no-allocator build cannot hold it): the variant is still decided by the first six bits
     if !mon::is_noalloc() {
